@@ -58,12 +58,18 @@ def multiplication_register_cic(
     # TODO: Set number of threads used by numba
     #       See: https://numba.readthedocs.io/en/stable/user/threading-layer.html#api-reference
 
+    # Numba has its own random generators (one per thread), they are seeded from NumPy's generator
+    # so that this model is reproducible with a seed (e.g. 'pipeline_seed')
+    num_rows, _ = detector.pixel.array.shape
+    seeds: np.ndarray = np.random.randint(0, 2**31 - 1, size=num_rows + 1)
+
     detector.pixel.array = multiplication_register_poisson(
         image_cube=detector.pixel.array,
         total_gain=total_gain,
         gain_elements=gain_elements,
         pcic_rate=pcic_rate,
         scic_rate=scic_rate,
+        seeds=seeds,
     ).astype(float)
 
 
@@ -109,6 +115,7 @@ def multiplication_register_poisson(
     gain_elements: int,
     pcic_rate: float,
     scic_rate: float,
+    seeds: np.ndarray,
 ) -> np.ndarray:
     """Calculate total gain of image from EMCCD register.
 
@@ -125,11 +132,14 @@ def multiplication_register_poisson(
         Parallel CIC rate.
     scic_rate : float
         Serial CIC rate.
+    seeds : np.ndarray
+        Seeds for Numba's random generators: one per row and one for the parallel CIC.
 
     Returns
     -------
     np.ndarray
     """
+    np.random.seed(seeds[-1])
 
     new_image_cube = np.zeros_like(image_cube, dtype=np.int32)
 
@@ -141,6 +151,8 @@ def multiplication_register_poisson(
     yshape, xshape = image_cube.shape
 
     for j in numba.prange(yshape):
+        # Each row is processed by one thread: seed the generator of this thread
+        np.random.seed(seeds[j])
         for i in numba.prange(xshape):
             new_image_cube[j, i] = poisson_register(
                 lam=lam,
